@@ -14,7 +14,9 @@
 #include "qsv_nondet.h"
 
 #define QSV_CAP 30000            /* cap on symbolic array sizes (keeps object-size arithmetic in range) */
+#ifndef QSV_INF
 #define QSV_INF (1 << 28)        /* payload standing for ILL_MAXDOUBLE in the GMP model */
+#endif
 
 #ifdef QSV_CBMC
 /* named inputs use their own nondet functions so that the anonymous nondet_*() sequence of a
